@@ -1234,6 +1234,11 @@ class ABCPropertyGraph(ABCPropertyGraphConstants):
         assert lsliver.node_id is not None
         assert interfaces is not None
 
+        # a link joins ConnectionPoints of this graph: check before anything is added
+        for i in interfaces:
+            if not self.node_exists(node_id=i, label=ABCPropertyGraph.CLASS_ConnectionPoint):
+                raise PropertyGraphQueryException(graph_id=self.graph_id, node_id=i,
+                                                  msg="Unable to add link - it can only connect ConnectionPoints of this graph")
         props = self.link_sliver_to_graph_properties_dict(lsliver)
         self.add_node(node_id=lsliver.node_id, label=ABCPropertyGraph.CLASS_Link, props=props)
         # add edge links to specified interfaces
